@@ -86,9 +86,12 @@ func c18Kinds[V any](vs *ValSpec[V], tier string) []UniverseDef {
 	alpha := AlphaSpec{Name: "GC5", Free: []string{"a", "ab", P(12) + "x", P(12) + "y", P(11) + "z"}, Probes: []string{P(12)}, NoAutoP: true, Prefixes: []string{"a", P(12)}}
 	fan := FanUniverse(FanSpec{Name: "GCFAN48@14", Hold: 14, Extra: 3, Present: 2, Absent: 2})
 	fan.NoAutoP = true
+	// compressed paths far longer than a node (pointer arithmetic on the inline path must stay inside it)
+	vlong := AlphaSpec{Name: "GCVERYLONG", Setup: []string{P(300) + "m1", P(300) + "m2", P(300) + "m3", P(300) + "m4", P(300) + "m5"},
+		Free: []string{P(100) + "a", P(100) + "b", P(100) + "c", P(300) + "x"}, Probes: []string{P(100)}, NoAutoP: true, Prefixes: []string{P(100), P(300)}}
 	for _, kt := range []string{"string", "[]byte"} {
 		kt := kt
-		for _, sp := range []AlphaSpec{alpha, fan} {
+		for _, sp := range []AlphaSpec{alpha, fan, vlong} {
 			sp := sp
 			if kt == "[]byte" && sp.Name != "GC5" {
 				continue
